@@ -202,7 +202,12 @@ class Universe:
                     opts.append(f"alias={f['alias']!r}")
                 rhs = f" = pydantic.Field({', '.join(opts)})" if opts else ""
                 lines.append(f"    {fid}: {ann}{rhs}")
-        if not c["fields"]:
+        # instances Python treats as false: the class defines __bool__ / __len__ (a model like any other)
+        if c.get("falsy") == "bool":
+            lines.append("    def __bool__(self):\n        return False")
+        elif c.get("falsy") == "len":
+            lines.append("    def __len__(self):\n        return 0")
+        elif not c["fields"]:
             lines.append("    pass")
         src = "\n".join(lines)
         exec(src, self.ns)  # noqa: S102
